@@ -25,6 +25,7 @@ type Info struct {
 	CanEmbed bool
 	Slow     bool // GT-like: exponentiations ~1ms
 	ScalarOnly bool // no points (mod.Int over a bare modulus)
+	Adapter  bool // suite-as-group adapter (only used by the encoding check)
 	UnreducedOK bool // Scalar.UnmarshalBinary accepts unreduced values and keeps them as they are (Ed25519 limb scalar)
 	Suite    pairing.Suite
 	SuiteKey string
@@ -70,7 +71,7 @@ func (g *Info) Fix(p kyber.Point) kyber.Point {
 
 // ByName returns a fresh Info for the named group or nil.
 func ByName(name string) *Info {
-	for _, g := range All() {
+	for _, g := range append(All(), Adapters()...) {
 		if g.Name == name {
 			return g
 		}
